@@ -28,8 +28,11 @@ def plan(tier: str):
         return {
             "small": [dict(max_total=5, ntokens=2, nrules=2, with_parts=True),
                       dict(max_total=4, ntokens=3, nrules=1)],
-            "random": 6000,
-            "exhaustive_bound": "2 rules / 2 tokens / <=5 regex nodes, and 1 rule / 3 tokens / <=4 nodes",
+            "small": [dict(max_total=6, ntokens=2, nrules=2, with_parts=True),
+                      dict(max_total=5, ntokens=3, nrules=1)],
+            "random": 40000,
+            "gvalid": 12000,
+            "exhaustive_bound": "2 rules / 2 tokens / <=6 regex nodes, and 1 rule / 3 tokens / <=5 nodes",
         }
     return {
         "small": [dict(max_total=7, ntokens=2, nrules=2, with_parts=True),
@@ -101,6 +104,12 @@ def _worker(args):
     gen = AnyGen(rng)
     for _ in range(pl["random"] // nshards):
         one(gen.grammar(), "random")
+    from .gvalid import GValid
+    gv = GValid(random.Random(sd * 7919 + shard))
+    for _ in range(pl["gvalid"] // nshards):
+        g, meta = gv.grammar()
+        if g is not None:
+            one(g, "gvalid")
     probe.close()
     res["counts"]["enumerated"] = i
     return res
